@@ -258,4 +258,351 @@ theorem runDecode_total (t : Ty) (ht : TyOK t = true) (g : GenCodec) (h : denote
   rw [runDecode_refCodec t ht g h bs]
   cases dec t bs <;> simp [ofDRes]
 
+/-! ### `encodeSizeX` -/
+
+def sizeOE (oe : Bool) (t : Ty) (v : Val t) : Nat := if oe then size (.omitempty t) v else size t v
+
+theorem staticSize_compile (t : Ty) (hs : isStatic t = true) (k p : SProg)
+    (hc : compileSize t false k = some p) (v : Val t) :
+    staticSize p = (staticSize k).map (size t v + ·) := by
+  induction t generalizing k p with
+  | u8 | u16 | u32 | u64 | i8 | i16 | i32 | i64 | bool | bytesN _ =>
+    simp only [compileSize, Option.some.injEq] at hc; subst hc; simp [staticSize, size]
+  | array n t _ => simp [compileSize] at hc
+  | bytes m => simp [isStatic] at hs
+  | str m => simp [isStatic] at hs
+  | slice m t _ => simp [isStatic] at hs
+  | unit =>
+    simp only [compileSize, Option.some.injEq] at hc; subst hc
+    cases staticSize k <;> simp [size]
+  | pair a b iha ihb =>
+    obtain ⟨x, y⟩ := v
+    simp only [isStatic, Bool.and_eq_true] at hs
+    simp only [compileSize, Option.bind_eq_some_iff] at hc
+    obtain ⟨kb, hb, ha⟩ := hc
+    rw [iha hs.1 kb p ha x, ihb hs.2 k kb hb y]
+    cases staticSize k <;> simp [size, Nat.add_assoc]
+  | omitempty t _ => simp [isStatic] at hs
+
+theorem sum_const {α} (f : α → Nat) (c : Nat) (vs : List α) (h : ∀ x ∈ vs, f x = c) :
+    (vs.map f).sum = vs.length * c := by
+  induction vs with
+  | nil => simp
+  | cons v vs ih =>
+    simp only [List.map_cons, List.sum_cons, List.length_cons]
+    rw [h v (by simp), ih (fun x hx => h x (by simp [hx])), Nat.succ_mul]; omega
+
+theorem sumSizes_eq {α} (f : α → Option Nat) (g : α → Nat) (vs : List α) (h : ∀ x, f x = some (g x)) :
+    sumSizes f vs = some (vs.map g).sum := by
+  induction vs with
+  | nil => rfl
+  | cons v vs ih => simp [sumSizes, h v, ih]
+
+/-- **the expected size program computes `datasizeWrite`** -/
+theorem runSize_compile (t : Ty) (oe : Bool) (k p : SProg) (hc : compileSize t oe k = some p) (v : Val t) :
+    runSize t p v = some (sizeOE oe t v, k) := by
+  induction t generalizing oe k p with
+  | u8 | u16 | u32 | u64 | i8 | i16 | i32 | i64 | bool | bytesN _ =>
+    cases oe with
+    | true => simp [compileSize] at hc
+    | false => simp only [compileSize, Option.some.injEq] at hc; subst hc; simp [runSize, sizeOE, size]
+  | array n t _ => cases oe <;> simp [compileSize] at hc
+  | bytes m =>
+    simp only [compileSize, Option.some.injEq] at hc; subst hc
+    cases oe <;> simp [runSize, sizeOE, size, isEmpty]
+  | str m => cases oe <;> simp [compileSize] at hc
+  | slice m t ih =>
+    simp only [compileSize, Option.map_eq_some_iff] at hc
+    obtain ⟨el, hel, hp⟩ := hc
+    have hsz : sizeOE oe (.slice m t) v = if oe && v.isEmpty then 0 else 4 + (v.map (size t)).sum := by
+      cases oe <;> simp [sizeOE, size, isEmpty]
+    by_cases hst : isStatic t = true
+    · simp only [hst, if_true] at hp; subst hp
+      rw [runSize, hsz]
+      split
+      · rfl
+      · have hz := staticSize_compile t hst .done el hel
+        have hconst : ∀ x, size t x = size t (zero t) := by
+          intro x
+          have h1 := hz x; have h2 := hz (zero t)
+          rw [h1] at h2; simpa [staticSize] using h2
+        rw [hz (zero t)]
+        simp only [staticSize, Option.map_some, Nat.add_zero]
+        rw [sum_const (size t) (size t (zero t)) v (fun x _ => hconst x)]
+    · simp only [hst, Bool.false_eq_true, if_false] at hp; subst hp
+      rw [runSize, hsz]
+      split
+      · rfl
+      · rw [sumSizes_eq _ (size t) v (fun x => by rw [ih false .done el hel x]; simp [sizeOE])]
+        rfl
+  | unit =>
+    cases oe with
+    | true => simp [compileSize] at hc
+    | false => simp only [compileSize, Option.some.injEq] at hc; subst hc; simp [runSize, sizeOE, size]
+  | pair a b iha ihb =>
+    obtain ⟨x, y⟩ := v
+    cases oe with
+    | true => simp [compileSize] at hc
+    | false =>
+      simp only [compileSize, Option.bind_eq_some_iff] at hc
+      obtain ⟨kb, hb, ha⟩ := hc
+      rw [runSize, iha false kb p ha x]
+      simp only
+      rw [ihb false k kb hb y]
+      simp [sizeOE, size]
+  | omitempty t ih =>
+    cases oe with
+    | true => simp [compileSize] at hc
+    | false =>
+      simp only [compileSize] at hc
+      rw [runSize, ih true k p hc v]
+      simp [sizeOE]
+
+theorem runSizeOf_compile (t : Ty) (p : SProg) (hc : compileSize t false .done = some p) (v : Val t) :
+    runSizeOf t p v = some (size t v) := by
+  simp [runSizeOf, runSize_compile t false .done p hc v, sizeOE]
+
+/-! ### `encodeX` -/
+
+def encOE (oe : Bool) (t : Ty) (v : Val t) : Bytes := if oe then enc (.omitempty t) v else enc t v
+def encCheckOE (oe : Bool) (t : Ty) (v : Val t) : Option EncErr :=
+  if oe then encCheck (.omitempty t) v else encCheck t v
+
+/-- what the generated encoder does with a buffer that is large enough: the refusal, or the bytes -/
+def encOutcome (w : Bytes) (chk : Option EncErr) (cap : Nat) (k : EProg) : PRes EncErr (Bytes × Nat × EProg) :=
+  match chk with
+  | some e => .err e
+  | none => .ok (w, cap - w.length, k)
+
+theorem writeE_ok (w : Bytes) (cap : Nat) (k : EProg) (h : w.length ≤ cap) :
+    writeE w cap k = .ok (w, cap - w.length, k) := by
+  have : ¬ cap < w.length := by omega
+  simp [writeE, this]
+
+theorem encLoop_eq {α} (f : α → Nat → PRes EncErr (Bytes × Nat)) (e : α → Bytes) (c : α → Option EncErr)
+    (h : ∀ x cap, (e x).length ≤ cap →
+      f x cap = match c x with | some er => .err er | none => .ok (e x, cap - (e x).length))
+    (vs : List α) (cap : Nat) (acc : List Bytes) (hcap : ((vs.map e).flatten).length ≤ cap) :
+    encLoop f vs cap acc =
+      match firstErr c vs with
+      | some er => .err er
+      | none => .ok ((acc.reverse ++ vs.map e).flatten, cap - ((vs.map e).flatten).length) := by
+  induction vs generalizing cap acc with
+  | nil => simp [encLoop, firstErr]
+  | cons v vs ih =>
+    simp only [List.map_cons, List.flatten_cons, List.length_append] at hcap
+    rw [encLoop, h v cap (by omega), firstErr]
+    cases c v with
+    | some er => rfl
+    | none =>
+      simp only
+      rw [ih (cap - (e v).length) (e v :: acc) (by omega)]
+      cases firstErr c vs with
+      | some er => rfl
+      | none =>
+        simp only [List.reverse_cons, List.append_assoc, List.singleton_append, List.map_cons,
+          List.flatten_cons, List.length_append]
+        congr 2
+        omega
+
+theorem encLenHead_eq (oe : Bool) (m len : Nat) :
+    encLenHead oe m true len =
+      if oe && len == 0 then .ok false
+      else match lenCheck m len with | some e => .error e | none => .ok true := by
+  unfold encLenHead lenCheck
+  by_cases h0 : (oe && len == 0) = true
+  · simp [h0]
+  · simp only [h0, Bool.false_eq_true, if_false, Bool.true_and, decide_eq_true_eq]
+    split
+    · rfl
+    · split <;> rfl
+
+/-- **the expected encoder program computes `encG`** (given a buffer that holds the whole encoding) -/
+theorem runEnc_compile (t : Ty) (oe : Bool) (k p : EProg) (hc : compileEnc t oe k = some p) (v : Val t)
+    (cap : Nat) (hcap : (encOE oe t v).length ≤ cap) :
+    runEnc t p v cap = encOutcome (encOE oe t v) (encCheckOE oe t v) cap k := by
+  induction t generalizing oe k p cap with
+  | u8 | u16 | u32 | u64 | i8 | i16 | i32 | i64 | bool =>
+    cases oe with
+    | true => simp [compileEnc] at hc
+    | false =>
+      simp only [compileEnc, Option.some.injEq] at hc; subst hc
+      simp only [encOE, Bool.false_eq_true, if_false] at hcap
+      simp only [runEnc, encOE, encCheckOE, Bool.false_eq_true, if_false, encCheck, encOutcome]
+      exact writeE_ok _ cap k hcap
+  | bytesN n =>
+    cases oe with
+    | true => simp [compileEnc] at hc
+    | false =>
+      simp only [compileEnc, Option.some.injEq] at hc; subst hc
+      simp only [encOE, Bool.false_eq_true, if_false, enc] at hcap
+      simp only [runEnc, encOE, encCheckOE, Bool.false_eq_true, if_false, encCheck, encOutcome, enc]
+      exact writeE_ok _ cap k hcap
+  | array n t _ => cases oe <;> simp [compileEnc] at hc
+  | bytes m =>
+    simp only [compileEnc, Option.some.injEq] at hc; subst hc
+    rw [runEnc, encLenHead_eq]
+    cases oe with
+    | false =>
+      simp only [encOE, Bool.false_eq_true, if_false, enc] at hcap
+      simp only [Bool.false_and, Bool.false_eq_true, if_false, encOE, encCheckOE, encCheck, encOutcome, enc]
+      cases lenCheck m v.length with
+      | some e => rfl
+      | none => exact writeE_ok _ cap k hcap
+    | true =>
+      simp only [encOE, if_true, enc, isEmpty] at hcap
+      simp only [Bool.true_and, encOE, encCheckOE, if_true, encCheck, enc, isEmpty, encOutcome]
+      by_cases he : v.isEmpty = true
+      · have : v.length = 0 := by cases v <;> simp_all
+        simp [he, this]
+      · have hl : ¬ v.length = 0 := by cases v <;> simp_all
+        have he' : v.isEmpty = false := by simpa using he
+        simp only [he', Bool.false_eq_true, if_false] at hcap ⊢
+        simp only [beq_iff_eq, hl, if_false]
+        cases lenCheck m v.length with
+        | some e => rfl
+        | none => exact writeE_ok _ cap k hcap
+  | str m => cases oe <;> simp [compileEnc] at hc
+  | slice m t ih =>
+    simp only [compileEnc, Option.map_eq_some_iff] at hc
+    obtain ⟨body, hb, hp⟩ := hc
+    subst hp
+    rw [runEnc, encLenHead_eq]
+    have ihe : ∀ x c, (enc t x).length ≤ c →
+        runEnc t body x c = encOutcome (enc t x) (encCheck t x) c .done := by
+      intro x c hx
+      have := ih false .done body hb x c (by simpa [encOE] using hx)
+      simpa only [encOE, encCheckOE, Bool.false_eq_true, if_false] using this
+    cases oe with
+    | false =>
+      simp only [encOE, Bool.false_eq_true, if_false, enc, List.length_append, leBytes_length] at hcap
+      simp only [Bool.false_and, Bool.false_eq_true, if_false, encOE, encCheckOE, encCheck, encOutcome, enc]
+      cases lenCheck m v.length with
+      | some e => rfl
+      | none =>
+        simp only
+        rw [writeE_ok _ cap k (by simp; omega)]
+        simp only [leBytes_length]
+        rw [encLoop_eq _ (enc t) (encCheck t) _ v (cap - 4) [] (by omega)]
+        · cases firstErr (encCheck t) v with
+          | some er => rfl
+          | none => simp only [List.reverse_nil, List.nil_append, List.length_append, leBytes_length, Nat.sub_sub]
+        · intro x c hx
+          simp only [ihe x c hx, encOutcome]
+          cases encCheck t x <;> rfl
+    | true =>
+      simp only [encOE, if_true, enc, isEmpty] at hcap
+      simp only [Bool.true_and, encOE, encCheckOE, if_true, encCheck, enc, isEmpty, encOutcome]
+      by_cases he : v.isEmpty = true
+      · have : v.length = 0 := by cases v <;> simp_all
+        simp [he, this]
+      · have hl : ¬ v.length = 0 := by cases v <;> simp_all
+        have he' : v.isEmpty = false := by simpa using he
+        simp only [he', Bool.false_eq_true, if_false, List.length_append, leBytes_length] at hcap ⊢
+        simp only [beq_iff_eq, hl, if_false]
+        cases lenCheck m v.length with
+        | some e => rfl
+        | none =>
+          simp only
+          rw [writeE_ok _ cap k (by simp; omega)]
+          simp only [leBytes_length]
+          rw [encLoop_eq _ (enc t) (encCheck t) _ v (cap - 4) [] (by omega)]
+          · cases firstErr (encCheck t) v with
+            | some er => rfl
+            | none => simp only [List.reverse_nil, List.nil_append, Nat.sub_sub]
+          · intro x c hx
+            simp only [ihe x c hx, encOutcome]
+            cases encCheck t x <;> rfl
+  | unit =>
+    cases oe with
+    | true => simp [compileEnc] at hc
+    | false =>
+      simp only [compileEnc, Option.some.injEq] at hc; subst hc
+      simp [runEnc, encOE, encCheckOE, encCheck, encOutcome, enc]
+  | pair a b iha ihb =>
+    obtain ⟨x, y⟩ := v
+    cases oe with
+    | true => simp [compileEnc] at hc
+    | false =>
+      simp only [compileEnc, Option.bind_eq_some_iff] at hc
+      obtain ⟨kb, hb, ha⟩ := hc
+      simp only [encOE, Bool.false_eq_true, if_false, enc, List.length_append] at hcap
+      have e1 := iha false kb p ha x cap (by simp only [encOE, Bool.false_eq_true, if_false]; omega)
+      simp only [encOE, encCheckOE, Bool.false_eq_true, if_false, encOutcome] at e1
+      rw [runEnc, e1]
+      simp only [encOE, encCheckOE, Bool.false_eq_true, if_false, encCheck, encOutcome, enc]
+      cases encCheck a x with
+      | some e => rfl
+      | none =>
+        simp only
+        have e2 := ihb false k kb hb y (cap - (enc a x).length) (by simp only [encOE, Bool.false_eq_true, if_false]; omega)
+        simp only [encOE, encCheckOE, Bool.false_eq_true, if_false, encOutcome] at e2
+        rw [e2]
+        cases encCheck b y with
+        | some e => rfl
+        | none => simp only [List.length_append, Nat.sub_sub]
+  | omitempty t ih =>
+    cases oe with
+    | true => simp [compileEnc] at hc
+    | false =>
+      simp only [compileEnc] at hc
+      have := ih true k p hc v cap (by simpa [encOE] using hcap)
+      rw [runEnc, this]
+      simp [encOE, encCheckOE]
+
+def ofExcept {ε α} : Except ε α → PRes ε α
+  | .ok a => .ok a
+  | .error e => .err e
+
+/-- **generated encoder ≡ reference encoder + maxlen enforcement**: a generated codec that is the expected
+one for its schema returns, for every value Go can hold (`ShapeOK`), `ErrMaxLenExceeded` exactly when `encG` does and
+otherwise exactly the bytes of `encoder.Serialize`; it never panics (the buffer allocated from
+`encodeSizeX` is exactly as long as what is written). -/
+theorem runEncode_refCodec (t : Ty) (g : GenCodec) (h : denote g = refCodec t) (v : Val t) (hw : ShapeOK t v) :
+    runEncode t g v = ofExcept (encG t v) := by
+  simp only [denote, refCodec, Option.bind_eq_bind] at h
+  cases hd : compileDec t false .done with
+  | none => rw [hd] at h; simp at h
+  | some d =>
+    rw [hd] at h
+    cases he : compileEnc t false .done with
+    | none => rw [he] at h; simp at h
+    | some e =>
+      rw [he] at h
+      cases hs : compileSize t false .done with
+      | none => rw [hs] at h; simp at h
+      | some s' =>
+        rw [hs] at h
+        simp only [Option.bind_some, Option.pure_def, Option.some.injEq] at h
+        subst h
+        have hsz := size_eq_length_of_shape t v hw
+        rw [runEncode, runSizeOf_compile t s' hs v]
+        simp only
+        have := runEnc_compile t false .done e he v (size t v) (by simp [encOE, hsz])
+        simp only [encOE, encCheckOE, Bool.false_eq_true, if_false, encOutcome] at this
+        rw [this, encG]
+        cases encCheck t v with
+        | some er => rfl
+        | none => simp [ofExcept, hsz]
+
+/-- the generated size function is the reference size -/
+theorem runSizeOf_refCodec (t : Ty) (g : GenCodec) (h : denote g = refCodec t) (v : Val t) :
+    runSizeOf t g.size v = some (size t v) := by
+  simp only [denote, refCodec, Option.bind_eq_bind] at h
+  cases hd : compileDec t false .done with
+  | none => rw [hd] at h; simp at h
+  | some d =>
+    rw [hd] at h
+    cases he : compileEnc t false .done with
+    | none => rw [he] at h; simp at h
+    | some e =>
+      rw [he] at h
+      cases hs : compileSize t false .done with
+      | none => rw [hs] at h; simp at h
+      | some s' =>
+        rw [hs] at h
+        simp only [Option.bind_some, Option.pure_def, Option.some.injEq] at h
+        subst h
+        exact runSizeOf_compile t s' hs v
+
 end Sky.Codec
